@@ -180,6 +180,19 @@ def run(ck):
             e = rng.choice([2, -1, 3])
             oracle((ua ** e).dimensionality == (ub ** e).dimensionality, "congr:pow", "a~b but a**e !~ b**e", {"a": str(da), "b": str(db), "e": str(e)})
             oracle(can_convert(regk.ucd((ua * uc_)._units), regk.ucd((ub * uc_)._units))[0], "congr:mul-convert", "a~b but a*c does not convert to b*c", {"a": str(da), "b": str(db), "c": str(dc)})
+        # the check decorator with several parameters, keywords out of signature order, a default left in place
+        qa_, qb_, qc_ = ureg.Quantity(F(1), ua), ureg.Quantity(F(2), ub), ureg.Quantity(F(3), uc_)
+        g = ureg.check(ua, uc_, ub)(lambda x, y=qc_, z=qb_: 1)
+        for label, kw, okexp in (("kw-reversed", dict(z=qb_, y=qc_), True),
+                                 ("kw-later-only", dict(z=qb_), True),
+                                 ("kw-swapped-values", dict(z=qc_, y=qb_), (ub.dimensionality == uc_.dimensionality))):
+            try:
+                g(qa_, **kw)
+                got = True
+            except pint.errors.DimensionalityError:
+                got = False
+            oracle(got == okexp, "pred:ureg.check-keywords:" + label, f"ureg.check with keyword arguments ({label}) accepted={got}, expected {okexp}",
+                   {"declared": [str(da), str(dc), str(db)], "call": label})
         # dimensionality homomorphism on the real registry
         oracle((ua * uc_).dimensionality == ua.dimensionality * uc_.dimensionality, "hom:mul", "dim(a*c) != dim(a)*dim(c)", {"a": str(da), "c": str(dc)})
         ck.count("compound")
